@@ -210,6 +210,10 @@ def run(tier: str, seed: int) -> core.Report:
     if res.error or res.invariant_violated:
         raise core.MachineryError(f"Svc.tla: {res.invariant_violated or res.error}\n{res.out[-1500:]}")
     rep.add_tlc(res, "MC_Svc (<= 4 registrations, <= 2 service tasks): the design satisfies the C08 monitor and NoTaskLeft; terminal (program, schedule) pairs exported")
+    live = tlc.run("MC_Svc", "MC_Svc_live", workers=4, heap="4g", timeout=1200, check=False)
+    if live.error or live.property_violated:
+        raise core.MachineryError(f"Svc.tla liveness: {live.error or 'Ends violated'}")
+    rep.add_tlc(live, "MC_Svc_live: once the block is entered every run ends with the block left (weak fairness): teardown never hangs once tasks end")
     pairs = list(res.printed())
     rnd = random.Random(seed)
     if tier == "quick":
